@@ -459,7 +459,7 @@ impl ConnectionEngine {
 //@@ qmark
 //@@ subst `ConnectionStopReason::ClosedWithError(error.clone())` => `stop_reason_closed_with_error(error.clone())` rule=R11
 //@@ subst `self.connection.allocate_session(tx).map_err(Into::into)` => `self.connection.allocate_session(tx).map_err(|e: ConnAllocError| -> (o: AllocSessionError) { alloc_err_into(e) })` rule=R17
-//@@ subst `.map_err(|_v0| ConnectionInnerError::IllegalState)` => `.map_err(|_v0: Result<OutgoingChannel, AllocSessionError>| -> (o: ConnectionInnerError) { ConnectionInnerError::IllegalState })` rule=R5
+//@@ subst `.map_err(|_v0| ConnectionInnerError::IllegalState)` => `.map_err(|_v0: Result<OutgoingChannel, AllocSessionError>| -> (o: ConnectionInnerError) { ConnectionInnerError::IllegalState })` rule=optional-R5
 //@@ spec
     ensures
         control is Close && close_already_sent(old(self).connection.st) ==> extended_without_close(old(self).transport.sent@, final(self).transport.sent@),                                 // [C12.close-at-most-once] a close request from the handle after a close has already been sent (try_close polled again, close after close_with_error) puts no second Close on the wire
